@@ -69,6 +69,24 @@ int bumps_global()
    return ++g_counter;
 }
 
+// R18.1b: function-local statics that are shared between objects: a mutable one, and a const one whose value is fixed
+// by whichever caller comes first
+int static_buffer_writer(const char* s)
+{
+   static char remembered[16];
+
+   if(remembered[0] == '\0')
+      strncpy(remembered, s, 15);
+
+   return remembered[0];
+}
+
+int static_from_argument(int n)
+{
+   static const int first = n * 2;
+   return first;
+}
+
 // R13.1: unbounded copy into a fixed-size buffer (the shape of finding F2)
 void unbounded_copy(const char* src)
 {
